@@ -45,6 +45,9 @@ type c05Case struct {
 	Kind    string    `json:"kind"` // what this case is about
 	// ListSep: when set, To / Cc / Bcc are handed over as one string each, joined with it (ToFromString / CcFromString / BccFromString)
 	ListSep string `json:"list_sep,omitempty"`
+	// RcptReply (501 / 553 / 550): the server refuses every RCPT whose forward-path has a quoted local part with this
+	// code (a server that does not implement quoted-strings); whatever the client does then is a well-formed line too
+	RcptReply int `json:"rcpt_reply_to_quoted_local_parts,omitempty"`
 }
 
 var c05Locals = []string{
@@ -302,7 +305,13 @@ func runC05Case(r *ev.Run, c c05Case) {
 	newCfg := func(int) *refsmtp.Config {
 		return &refsmtp.Config{
 			AllowUTF8: true,
-			Caps:      func(int, bool) []string { return c.Caps },
+			Decide: func(st refsmtp.Step) refsmtp.Action {
+				if c.RcptReply != 0 && st.Verb == "RCPT" && strings.Contains(st.Line, "<\"") {
+					return refsmtp.Action{Kind: refsmtp.Reply, Code: c.RcptReply, Text: "5.1.3 bad destination mailbox address syntax"}
+				}
+				return refsmtp.Action{}
+			},
+			Caps: func(int, bool) []string { return c.Caps },
 			Auth: func(io refsmtp.AuthIO, mech string, initial []byte, hasInit bool) refsmtp.Action {
 				// accept-anything handler that walks each mechanism's exchange and validates the continuation lines
 				switch mech {
@@ -698,6 +707,14 @@ func runC05(r *ev.Run, rep *ev.ReplayDoc) ev.Summary {
 				c.DSN = "default"
 			}
 			cases = append(cases, c)
+			if role >= 2 && !isDotAtom(l) {
+				// a server that refuses quoted local parts
+				for _, code := range []int{501, 553, 550} {
+					rc := c
+					rc.RcptReply, rc.Kind = code, c.Kind+"-refused"
+					cases = append(cases, rc)
+				}
+			}
 			if role >= 2 {
 				// the same recipients handed over as one comma-separated string
 				for _, sep := range []string{",", ", ", " , "} {
